@@ -28,10 +28,17 @@ type c06World struct {
 	lockSeq int
 }
 
-func newC06World(n int, h *ev.History) *c06World {
-	w := &c06World{nmWorld: newNmWorld(n, h, "netmap", "balance"), reject: map[util.Uint160]bool{}, ticked: map[int64][]string{}}
-	w.bal = w.fs.H["balance"]
-	w.subs = []util.Uint160{w.bal}
+func newC06World(n int, h *ev.History, standalone bool) *c06World {
+	contracts := []string{"netmap", "balance"}
+	if standalone {
+		// Netmap alone: no subscriber of the repository re-checks anything behind it
+		contracts = []string{"netmap"}
+	}
+	w := &c06World{nmWorld: newNmWorld(n, h, contracts...), reject: map[util.Uint160]bool{}, ticked: map[int64][]string{}}
+	if !standalone {
+		w.bal = w.fs.H["balance"]
+		w.subs = []util.Uint160{w.bal}
+	}
 	for i := 0; i < 4; i++ {
 		w.probes = append(w.probes, w.c.Deploy(chainkit.Probe("subscriber", fmt.Sprintf("verif subscriber %d", i)), nil))
 	}
@@ -174,11 +181,15 @@ func (w *c06World) checkPublished(what string) {
 func TestC06Stateful(t *testing.T) {
 	theT = t
 	col := ev.New("C06", "stateful",
-		"rapid state machine over candidate changes (legacy+structured), subscribeForNewEpoch (4 probe subscribers, duplicates, Balance again, a contract without newEpoch, missing Alphabet witness), probe reject flags, and blocks of 1..3 newEpoch transactions with epochs cur-1/cur/cur+1/cur+k with and without Alphabet witness; per transaction: success iff Alphabet and e>cur and no subscriber rejects; full snapshot diff empty on refusal; publication of the pre-tick candidates in both formats, candidates unchanged, lastEpochBlock, one NewEpoch event, one ProbeEpoch per probe in subscription order, delivery counters +1, a due Balance lock released once; non-trivial = a successful tick with >=2 subscribers (>=1 probe) and a non-empty candidate set after at least one refused tick",
+		"rapid state machine over candidate changes (legacy+structured), subscribeForNewEpoch (4 probe subscribers, duplicates, Balance again, a contract without newEpoch, missing Alphabet witness; one world in three is Netmap alone, so that no subscriber of the repository re-checks the witness behind it), probe reject flags, and blocks of 1..3 newEpoch transactions with epochs cur-1/cur/cur+1/cur+k with and without Alphabet witness; per transaction: success iff Alphabet and e>cur and no subscriber rejects; full snapshot diff empty on refusal; publication of the pre-tick candidates in both formats, candidates unchanged, lastEpochBlock, one NewEpoch event, one ProbeEpoch per probe in subscription order, delivery counters +1, a due Balance lock released once; non-trivial = a successful tick with >=2 subscribers (>=1 probe) and a non-empty candidate set after at least one refused tick",
 		"the expected publication is the candidate set observed immediately before the tick (metamorphic oracle; candidate semantics themselves are C07)")
 	runRapid(t, col, func(rt *rapid.T, h *ev.History) {
 		n := rapid.SampledFrom([]int{1, 1, 3}).Draw(rt, "n")
-		w := newC06World(n, h)
+		standalone := rapid.IntRange(0, 2).Draw(rt, "netmapAlone") == 0
+		w := newC06World(n, h, standalone)
+		if standalone {
+			h.Mark("netmap-without-balance")
+		}
 		defer w.close()
 		w.c.FixedSysFee = 60_0000_0000
 		alpha := w.alpha
@@ -205,7 +216,10 @@ func TestC06Stateful(t *testing.T) {
 				h.Op("candidate op key=%d marker=%d -> %s", k, marker, o)
 				w.checkPublished("a candidate change")
 			case "subscribe":
-				pool := append(append([]util.Uint160{}, w.probes...), w.bal, w.noEpoch)
+				pool := append(append([]util.Uint160{}, w.probes...), w.noEpoch)
+				if !standalone {
+					pool = append(pool, w.bal)
+				}
 				target := rapid.SampledFrom(pool).Draw(rt, "target")
 				withAlpha := rapid.IntRange(0, 5).Draw(rt, "noAlpha") != 0
 				var signers []neotest.Signer
@@ -248,6 +262,9 @@ func TestC06Stateful(t *testing.T) {
 				w.reject[w.probes[i]] = on
 				h.Op("probe %d reject=%v", i, on)
 			case "lock":
+				if standalone {
+					break
+				}
 				// a Balance lock that is due at the next epoch: lets the tick's effect in Balance be observed
 				w.lockSeq++
 				var user util.Uint160
